@@ -163,6 +163,9 @@ func judge(cs Case, rep Reply) ev.Outcome {
 			"garbler returned wrong result as success: got %v, reference %v; %s session (%s), x=%s y=%s ot=%s seed=%d; corruption %s offset %d mask %s (message kind %s, %d of the flips hit transmitted bytes); evaluator: ok=%v err=%q vals=%v",
 			rep.GVals, rep.Want, cs.S.Mode, sourceOf(cs.S), cs.S.X, cs.S.Y, cs.S.OT, cs.S.Seed,
 			dir, cs.C.Off, cs.C.Mask, rep.Kind, rep.Hits, rep.EOK, rep.EErr, rep.EVals)
+		col.Count("wrong-result-cases/"+out.Sig, 1)
+		col.Note("wrong result: %s %s offset %d mask %s (%s): got %v want %v", sourceOf(cs.S)+":"+cs.S.Prog, dir,
+			cs.C.Off, cs.C.Mask, rep.Kind, rep.GVals, rep.Want)
 		return out
 	}
 	classes = append(classes, "outcome="+outcome, "outcome="+outcome+"/"+cs.S.Mode+"/"+dir)
@@ -434,7 +437,12 @@ func TestEnumerate(t *testing.T) {
 	const maxLen = 4096
 
 	var all []Case
+	must := map[int]bool{}                   // indices into all that the quick tier always runs
+	only := os.Getenv("VERIF_C16_ENUM_ONLY") // comma separated program/circuit names
 	for si, s := range enumSessions() {
+		if only != "" && !strings.Contains(","+only+",", ","+s.Prog+circName(s)+",") {
+			continue
+		}
 		rep, err := p.do(Request{S: s})
 		if err != nil || rep.Skip != "" {
 			t.Errorf("enumerated session %d cannot run honestly: %v %s", si, err, rep.Skip)
@@ -454,8 +462,26 @@ func TestEnumerate(t *testing.T) {
 					si, dirName[dir], n, maxLen)
 				n = maxLen
 			}
-			for off := 0; off < n; off++ {
+			lo, hi := 0, n
+			if r := os.Getenv("VERIF_C16_ENUM_RANGE"); r != "" { // "dir:lo-hi", debugging aid
+				var rd, rl, rh int
+				if k, _ := fmt.Sscanf(r, "%d:%d-%d", &rd, &rl, &rh); k == 3 {
+					if rd != dir {
+						continue
+					}
+					lo, hi = max(rl, 0), min(rh, n)
+				}
+			}
+			for off := lo; off < hi; off++ {
+				// The evaluator's argument description of the array /
+				// struct sessions is small and decides what the evaluator
+				// feeds in: the quick tier covers it with four masks.
+				desc := (s.Prog == "arrarg" || s.Prog == "structarg") &&
+					strings.HasPrefix(kindAt(rep.Layout, dir, off), "evalarg-")
 				for _, m := range enumMasks(s, dir, off) {
+					if desc && (m == "01" || m == "02" || m == "04" || m == "80") {
+						must[len(all)] = true
+					}
 					all = append(all, Case{S: s, C: Corruption{Dir: dir, Off: off, Mask: m}})
 				}
 			}
@@ -469,7 +495,7 @@ func TestEnumerate(t *testing.T) {
 	}
 	var mine []Case
 	for i, cs := range all {
-		if limit > 0 {
+		if limit > 0 && !must[i] {
 			if caseHash(col.Seed, i)%uint64(len(all)) >= uint64(limit) {
 				continue
 			}
